@@ -227,6 +227,13 @@ def run(chk):
 
 _C = "cnvlib/call.py"
 MUTANTS = [
+    dict(name="twin: absolute_pure as a comprehension", expect="silent", file="cnvlib/call.py", old="""    absolutes = np.zeros(len(cnarr), dtype=np.float64)
+    for i, row in enumerate(cnarr):
+        ref_copies = _reference_copies_pure(row.chromosome, ploidy, is_haploid_x_reference)
+        absolutes[i] = _log2_ratio_to_absolute_pure(row.log2, ref_copies)
+    return absolutes
+""", new="""    return np.array([_log2_ratio_to_absolute_pure(row.log2, _reference_copies_pure(row.chromosome, ploidy, is_haploid_x_reference)) for row in cnarr], dtype=np.float64)
+"""),
     dict(name="seeded C01d: absolute_pure converts by chromosome into contiguous slices", file="cnvlib/call.py", old="""    for i, row in enumerate(cnarr):
         ref_copies = _reference_copies_pure(row.chromosome, ploidy, is_haploid_x_reference)
         absolutes[i] = _log2_ratio_to_absolute_pure(row.log2, ref_copies)
